@@ -600,7 +600,12 @@ func c12Rebound(c *Ctx) {
 		case 0, 1: // a float / an int characteristic, random setter sequence
 			isInt := i%4 == 1
 			fl := characteristic.NewCurrentTemperature()
-			in := characteristic.NewBrightness()
+			in := characteristic.NewBrightness().Int
+			if i%8 == 5 {
+				// the one constructor whose characteristic reports every update, also one to the value it already has
+				in = &characteristic.Int{Characteristic: characteristic.NewProgrammableSwitchEvent().Characteristic}
+				steps = append(steps, "NewProgrammableSwitchEvent")
+			}
 			for k := 0; k < 2+r.Intn(8); k++ {
 				v := pick()
 				op := []string{"SetValue", "SetMinValue", "SetMaxValue"}[r.Intn(3)]
@@ -614,9 +619,9 @@ func c12Rebound(c *Ctx) {
 					default:
 						in.SetMaxValue(int(v))
 					}
-					mn, _ := in.MinValue.(int)
-					mx, _ := in.MaxValue.(int)
-					if val, ok := in.Value.(int); ok && mn <= mx && (val < mn || val > mx) {
+					mn, hasMn := in.MinValue.(int)
+					mx, hasMx := in.MaxValue.(int)
+					if val, ok := in.Value.(int); ok && !(hasMn && hasMx && mn > mx) && ((hasMn && val < mn) || (hasMx && val > mx)) {
 						c.Violate("C12: stored value outside the declared range after the range was changed", id, steps, fmt.Sprintf("within [%d, %d]", mn, mx), fmt.Sprint(val))
 						break
 					}
